@@ -40,7 +40,8 @@ Ops(nv) ==
     \cup {<<"mov", f, "sum", 2>> : f \in Forms}
     \cup {<<"fill", f, mt[1], mt[2], sp>> : f \in Forms, mt \in {<<"constant", 7>>, <<"previous", 0>>}, sp \in {None, <<0, 3>>}}
     \cup {<<"extrap", f, <<1>>, 1, 2, 3>> : f \in Forms}
-    \cup {<<"copy">>}
+    \cup {<<"copy">>, <<"rebuild">>}
+    \cup {<<"rw", "neg", 0>>, <<"rw", "pos", NaN>>}
     \cup {<<"overlay", f>> : f \in Forms} \cup {<<"underlay", f>> : f \in Forms}
     \cup {<<"hstack">>}
     \cup {<<"binser", f>> : f \in {"add", "sub"}}
@@ -60,7 +61,7 @@ LooseAfter(op, o, r) ==   \* is the receiver / result stored loosely after this 
     [a |-> (r \in loose /\ (op[1] \in {"get", "call", "copy", "un", "binsc", "rbinsc", "stat", "mov", "overlay", "underlay",
                                           "hstack", "binser", "fill", "extrap"} \/ (op[1] = "shift" /\ TRUE)
                                           \/ (op[1] = "elem"))) \/ ~o.exact_a,
-     res |-> ~o.exact_res \/ (r \in loose /\ op[1] \in {"copy", "shift", "elem"})]
+     res |-> ~o.exact_res \/ (r \in loose /\ op[1] \in {"copy", "shift", "elem"})]      \* (a rebuilt series is trimmed by its constructor)
 
 \* enabling conditions that do not depend on the outcome (shared with TraceSeries.tla)
 Pre(r, g, op) ==
